@@ -453,6 +453,8 @@ static struct {
 	int started, slot;
 	int stop, pause, paused;
 	int dir;			/* 0 idle, 1 growing, 2 shrinking (relaxed) */
+	int in_call;			/* inside cds_lfht_resize() (watchdog) */
+	unsigned long target;
 	uint64_t count, grows, shrinks, nonpow2;
 } rz;
 
@@ -499,7 +501,10 @@ static void *resizer_main(void *arg)
 		 */
 		if (!opt_qsbr_resize_offline)
 			vp_rcu_online();
+		VP_STORE(rz.target, target);
+		VP_STORE(rz.in_call, 1);
 		cds_lfht_resize(ht, target);
+		VP_STORE(rz.in_call, 0);
 		if (!opt_qsbr_resize_offline)
 			vp_rcu_offline();
 		VP_STORE(rz.dir, 0);
@@ -520,6 +525,16 @@ static void *resizer_main(void *arg)
 	vp_rcu_online();
 	rcu_unregister_thread();
 	return NULL;
+}
+
+/* watchdog: nothing moved for the whole stall period and the resizer sits inside cds_lfht_resize() */
+static int resizer_confirm_stuck(char *buf, size_t len)
+{
+	if (rz.started && VP_LOAD(rz.in_call)) {
+		snprintf(buf, len, "hang:lfht:cds_lfht_resize(%lu)-does-not-return", VP_LOAD(rz.target));
+		return 1;
+	}
+	return 0;
 }
 
 static void resizer_start(int slot)
@@ -576,6 +591,11 @@ static void sig_add_bounded(const char *s)
 		h = (h ^ (unsigned char) *c) * 1099511628211ULL;
 	if (!h)
 		h = 1;
+	/* per-thread cache of signatures already handed in: the walkers call this millions of times */
+	static __thread uint64_t cache[256];
+	if (cache[h & 255] == h)
+		return;
+	cache[h & 255] = h;
 	pthread_mutex_lock(&sig_lock);
 	for (size_t i = h % SIGTAB;; i = (i + 1) % SIGTAB) {
 		if (sigtab[i] == h)
@@ -614,6 +634,7 @@ static void common_counters(void)
 	vp_counter_add("call_rcu_reclaims", n_call_rcu);
 }
 
+#include "lfht_conc_lin.h"
 #include "lfht_conc_ep.h"
 #include "lfht_conc_uniq.h"
 
@@ -641,5 +662,7 @@ int main(int argc, char **argv)
 		return run_uniq();
 	if (!strcmp(s, "rounds"))
 		return run_rounds();
+	if (!strcmp(s, "finding-addu"))
+		return run_finding_addu();
 	return run_episodes();
 }
